@@ -75,6 +75,10 @@ func (s *objectStore) Save(cluster string, condition *proxyv1alpha1.RateLimitCon
 }
 
 func (s *objectStore) Delete(cluster, name string) error {
+	// serialize with the background sync: a sync that listed the condition before it was
+	// deleted would otherwise write it back after the delete has been acknowledged
+	s.Lock()
+	defer s.Unlock()
 	err := retry.RetryOnConflict(retry.DefaultRetry, func() (err error) {
 		err = s.gatewayClient.ProxyV1alpha1().RateLimitConditions().Delete(context.Background(), name, v1.DeleteOptions{})
 		if err == nil || errors.IsNotFound(err) {
@@ -89,6 +93,8 @@ func (s *objectStore) Delete(cluster, name string) error {
 }
 
 func (s *objectStore) DeleteUpstream(cluster string) error {
+	s.Lock()
+	defer s.Unlock()
 	itemsToDelete := s.localStore.ListUpstream(cluster)
 	for _, item := range itemsToDelete {
 		err := retry.RetryOnConflict(retry.DefaultRetry, func() (err error) {
@@ -181,7 +187,11 @@ func (s *objectStore) createOrUpdate(condition *proxyv1alpha1.RateLimitCondition
 		_, err = s.gatewayClient.ProxyV1alpha1().RateLimitConditions().Update(context.Background(), item, v1.UpdateOptions{})
 		switch {
 		case errors.IsNotFound(err):
-			item, err = s.gatewayClient.ProxyV1alpha1().RateLimitConditions().Create(context.Background(), item, v1.CreateOptions{})
+			created, err := s.gatewayClient.ProxyV1alpha1().RateLimitConditions().Create(context.Background(), item, v1.CreateOptions{})
+			if err == nil {
+				// keep item for the next attempt when the create failed
+				item = created
+			}
 			return err == nil, nil
 		case errors.IsConflict(err):
 			latest, err := s.gatewayClient.ProxyV1alpha1().RateLimitConditions().Get(context.Background(), condition.Name, v1.GetOptions{ResourceVersion: "0"})
